@@ -70,7 +70,7 @@ CLAIMED.update({
 })
 
 CLAIMED.update({
- 'C15': dict(text='Machine-checked over the reals, for rule parameters in any units: ConstantPWM proposes its constant exactly while t >= start and t - start <= duration (as the quantity comparisons see it); ReachAngularPosition proposes 1 - (theta - theta_s)/theta_b with theta_s = target - theta_b + (T_load/T_max)/eta_t*theta_b; StartLimitCurrent, while theta <= target, proposes D = (s + e + sqrt(s^2 + e^2 + 2s(ilim - 2 i0)/imax))/2, proved to be a root of imax D^2 - (imax s + ilim) D + i0 s = 0, from which the documented motor law (C08) yields exactly the limit current at (D, w) outside the dead zone. StartProportionalToAngularPosition\'s ramp value is _partial (correspondence + oracle).',
+ 'C15': dict(text='Machine-checked over the reals, for rule parameters in any units: ConstantPWM proposes its constant exactly while t >= start and t - start <= duration (as the quantity comparisons see it); ReachAngularPosition proposes 1 - (theta - theta_s)/theta_b with theta_s = target - theta_b + (T_load/T_max)/eta_t*theta_b; StartLimitCurrent, while theta <= target, proposes D = (s + e + sqrt(s^2 + e^2 + 2s(ilim - 2 i0)/imax))/2, proved to be a root of imax D^2 - (imax s + ilim) D + i0 s = 0, from which the documented motor law (C08) yields exactly the limit current at (D, w) outside the dead zone. StartProportionalToAngularPosition, while theta <= target, proposes pm + (1 - pm) theta/target with pm = multiplier*((1/eta_t)(T_l/T_max)((imax - i0)/imax) + i0/imax) computed from the FIRST instant\'s motor load torque, the user\'s fallback being used exactly when that value is zero.',
    note=SOLVER_NOTE + ' Rules are stateless functions of the instant\'s view in the model; the correspondence runs controlled simulations that reuse one controller object across reset with a re-declared load, so hidden state in a rule object shows up as a disagreement. eta_t multiplies the efficiencies of SpurGear instances only (a worm driven by its wheel is skipped), as the code does; the documentation is ambiguous there (remark D12 in DESIGN.md).',
    technique='Coq proof over R (algebra through the regenerated quantity layer, quadratic-root identity); bit-exact correspondence on controlled runs', ref='6 C15'),
 })
